@@ -177,4 +177,91 @@ theorem sim_init {db : Db} (spec : Nat) (pre : Addr → Bool) (hwf : WF db (JSta
   · simp [warmSets, Lock.init, Spec.AccessSets.State.init, absAcct, JState.new]
   · simp [warmSets, Lock.init, Spec.AccessSets.State.init, absAcct, JState.new, absSlot]
 
+
+/-- the set machine's step for an operation that is not `checkpoint`/`create`/`commit`/`revert`/`initLoad` -/
+theorem specStep_ordinary {db : Db} {r r' : Run} {st st' : State} {op : Op} {bits : List Bool}
+    (hsp : specStep db r r' st op = some (st', bits))
+    (h1 : op ≠ .checkpoint) (h2 : ∀ c a hs b s, op ≠ .create c a hs b s) (h3 : op ≠ .commit)
+    (h4 : ∀ i, op ≠ .revert i) (h5 : ∀ a ks, op ≠ .initLoad a ks) :
+    st' = (Spec.AccessSets.accessAll st (accessesOf db r.js op)).1 := by
+  cases op <;> first
+    | exact absurd rfl h1 | exact absurd rfl (h2 _ _ _ _ _) | exact absurd rfl h3
+    | exact absurd rfl (h4 _) | exact absurd rfl (h5 _ _)
+    | (simp only [specStep, Option.some.injEq] at hsp; rw [hsp])
+
+/-- the pre-warmed set only grows -/
+theorem lockStep_pre_mono {db : Db} {hasStorage : Addr → Bool} {l l' : Lock} {op : Op}
+    (hs : lockStep db hasStorage l op = some l') : SetsLe l.st.pre l'.st.pre := by
+  obtain ⟨_, r', o', st', bits, _, _, hsp, rfl⟩ := lockStep_some hs
+  show SetsLe l.st.pre st'.pre
+  by_cases h1 : op = .checkpoint
+  · subst h1; simp [specStep] at hsp; rw [← hsp.1]; exact SetsLe.refl _
+  by_cases h3 : op = .commit
+  · subst h3; simp [specStep] at hsp; rw [← hsp.1]; exact SetsLe.refl _
+  by_cases h2 : ∃ c a hs b s, op = .create c a hs b s
+  · obtain ⟨c, a, hst, b, s, rfl⟩ := h2
+    simp only [specStep, Option.some.injEq, Prod.mk.injEq] at hsp
+    rw [← hsp.1]; split <;> exact SetsLe.refl _
+  by_cases h4 : ∃ i, op = .revert i
+  · obtain ⟨i, rfl⟩ := h4
+    simp only [specStep, Spec.AccessSets.revert, Option.map_eq_some_iff] at hsp
+    obtain ⟨x, ⟨snap, _, rfl⟩, hx⟩ := hsp
+    cases hx; exact SetsLe.refl _
+  by_cases h5 : ∃ a ks, op = .initLoad a ks
+  · obtain ⟨a, ks, rfl⟩ := h5
+    simp only [specStep, Option.some.injEq, Prod.mk.injEq] at hsp
+    rw [← hsp.1, (prewarmAll_spec _ _).2.1]; exact addAll_le _ _
+  · have := specStep_ordinary hsp h1 (fun c a hs b s e => h2 ⟨c, a, hs, b, s, e⟩) h3
+      (fun i e => h4 ⟨i, e⟩) (fun a ks e => h5 ⟨a, ks, e⟩)
+    rw [this, (accessAll_cur _ _).2.2]; exact SetsLe.refl _
+
+theorem lockRun_pre_mono {db : Db} {hasStorage : Addr → Bool} (ops : List Op) {l l' : Lock}
+    (hr : lockRun db hasStorage l ops = some l') : SetsLe l.st.pre l'.st.pre := by
+  induction ops generalizing l with
+  | nil => simp [lockRun] at hr; subst hr; exact SetsLe.refl _
+  | cons op ops ih =>
+    simp only [lockRun] at hr
+    cases hs : lockStep db hasStorage l op with
+    | none => simp [hs] at hr
+    | some l1 =>
+      simp only [hs] at hr
+      exact SetsLe.trans (lockStep_pre_mono hs) (ih hr)
+
+/-- `initial_account_load a ks` puts the address and the slots into the pre-warmed set -/
+theorem lockStep_initLoad_pre {db : Db} {hasStorage : Addr → Bool} {l l' : Lock} {a : Addr} {ks : List Nat}
+    (hs : lockStep db hasStorage l (.initLoad a ks) = some l') :
+    l'.st.pre.addrs a = true ∧ ∀ k, k ∈ ks → l'.st.pre.slots a k = true := by
+  obtain ⟨_, r', o', st', bits, _, _, hsp, rfl⟩ := lockStep_some hs
+  simp only [specStep, Option.some.injEq, Prod.mk.injEq] at hsp
+  show st'.pre.addrs a = true ∧ ∀ k, k ∈ ks → st'.pre.slots a k = true
+  rw [← hsp.1, (prewarmAll_spec _ _).2.1]
+  refine ⟨by rw [addAll_addrs]; simp, fun k hk => ?_⟩
+  rw [addAll_slots]
+  have : (Access.addr a :: ks.map (Access.slot a)).contains (Access.slot a k) = true := by
+    rw [List.contains_cons]; simp; exact hk
+  rw [this]; simp
+
+/-- the keys an operation of the pre-execution phase adds to the current sets -/
+def opKeys (db : Db) (s : JState) : Op → List Access
+  | .initLoad a ks => Access.addr a :: ks.map (Access.slot a)
+  | op => accessesOf db s op
+
+/-- the four operations of the pre-execution phase add exactly their keys -/
+theorem lockStep_keys {db : Db} {hasStorage : Addr → Bool} {l l' : Lock} {op : Op}
+    (hs : lockStep db hasStorage l op = some l')
+    (hop : (∃ a ks, op = .initLoad a ks) ∨ (∃ a, op = .load a) ∨ (∃ a, op = .loadCode a) ∨ (∃ a, op = .loadDelegated a)) :
+    l'.st.cur = l.st.cur.addAll (opKeys db l.r.js op) := by
+  obtain ⟨_, r', o', st', bits, _, _, hsp, rfl⟩ := lockStep_some hs
+  show st'.cur = _
+  rcases hop with ⟨a, ks, rfl⟩ | ⟨a, rfl⟩ | ⟨a, rfl⟩ | ⟨a, rfl⟩
+  · simp only [specStep, Option.some.injEq, Prod.mk.injEq] at hsp
+    obtain ⟨rfl, _⟩ := hsp
+    exact (prewarmAll_spec _ _).1
+  all_goals
+    simp only [specStep, Option.some.injEq] at hsp
+    have e := congrArg (fun x => x.1.cur) hsp
+    simp only at e
+    rw [← e]; exact (accessAll_cur _ _).1
+
+
 end Revm.Proofs.Access
